@@ -119,7 +119,8 @@ def prefix_classes(rng, n, every):
     ks = {1, n - 1, n // 2, rng.randint(1, n - 1), rng.randint(1, n - 1)}
     return sorted(k for k in ks if 0 < k < n)
 
-# patterns CanonicalPath maps to something it would change again (a segment ending in a blank exposed by "..")
+# patterns the one-pass CanonicalPath mapped to something it would change again (a segment ending in a blank
+# exposed by ".."); repaired in /repo (1c2de2b) — kept as a regression
 UNSTABLE = ["/a /b/..", "/x/y /c/..", "/a\t/b/..", "/q /./r/.."]
 
 def unstable_cases(rng):
@@ -256,8 +257,7 @@ def run(ck):
               sig=lambda c, e, o: "json-law-user", sample=1)
     ck.stream("route-torn-file", rt, "C18_rtorn_run", "C18_rtorn", "C18_rtorn_ok", nontrivial=tn,
               sig=lambda c, e, o: "json-law-route", sample=1)
-    # known finding, replayed every run: a pattern that is not stable under CanonicalPath changes on reload.
-    # The signature is given only when the implementation does exactly what the as-is model predicts.
+    # regression for the repaired finding (CanonicalPath not idempotent): such a pattern must reload unchanged
     ck.stream("route-reload-unstable-pattern", unstable_cases(rng), "C18_routes_run", "C18_routes", "C18_routes_ok",
               sig=lambda c, e, o: "route-reload-noncanonical-stable" if e == o else "route-history", sample=1)
     return ck.finish(
@@ -278,7 +278,7 @@ def run(ck):
              "after every round the directory (target + multiset of stray files) is compared with the model and a fresh provider "
              "must load the old or new table, after the completed flush exactly the new one (round_ok); non-trivial = a flush "
              "interrupted after (part of) its write followed by a completed flush of fewer bytes.  (3) the JSON laws on "
-             "the real decoder: the target overwritten with its own prefixes must not load.  (4) the known finding is replayed.",
+             "the real decoder: the target overwritten with its own prefixes must not load.  (4) regression: patterns the one-pass CanonicalPath changed on reload ('/a /b/..') must reload unchanged.",
         trusted=["JSON (encoding/json Marshal+Indent / Unmarshal) is an oracle constrained by the laws roundtrip "
                  "(decode (encode t) = Some t), prefix_safe (a strict prefix of an encoding does not decode to a different "
                  "table) and empty_invalid (the empty file does not decode); all three are exercised on the implementation "
@@ -288,5 +288,4 @@ def run(ck):
                  "url.Parse is an oracle (generator URLs + one rejected class, agreement checked through Save's result)"],
         assumptions=["ASCII names and patterns (Go lower-cases runes; invalid UTF-8 is changed by json.Marshal)",
                      "process death, not power loss: unsynced page cache and directory fsync are outside",
-                     "route patterns stable under CanonicalPath (guard rop_wf; the unstable class is a known finding)",
                      "table files are written by Flush only (a hand-edited file with duplicate names is outside)"])
